@@ -1051,6 +1051,17 @@ class World:
         def fn():
             if isinstance(o, pp.Container):
                 o.get_volume(rng.choice(vol_units + [None]))
+                if rng.random() < 0.3:
+                    try:
+                        o.get_volume(rng.choice(['mmol', 'umol', 'mol', 'mg', 'g', 'U']))      # not a volume: refused
+                    except (ValueError, TypeError):
+                        pass
+                if rng.random() < 0.3:
+                    # a caller who edits the set they were given changes their set, not what the container reports
+                    mine = o.get_substances()
+                    if isinstance(mine, set):
+                        mine |= set(self.subs)
+                        mine.discard(next(iter(o.contents), None))
                 subs = list(o.contents.keys()) or self.subs[:1]
                 for s in rng.sample(subs, min(2, len(subs))) + [rng.choice(self.subs)]:
                     if s.is_enzyme():
@@ -1071,7 +1082,14 @@ class World:
                 some = rng.sample(subs, min(2, len(subs)))
                 tgt.get_volumes(rng.choice([[], (), tuple(some), set(some), iter(some)]), rng.choice(vol_units))
                 tgt.get_moles(rng.choice([[], tuple(some), set(some)]), rng.choice(mol_units))
-                tgt.get_substances()
+                mine = tgt.get_substances()
+                if isinstance(mine, set) and rng.random() < 0.5:
+                    mine |= set(self.subs)           # (the caller's own copy)
+                if isinstance(tgt, pp.Plate) and rng.random() < 0.3:
+                    try:
+                        tgt.get_volume(rng.choice(['umol', 'mmol', 'mg']))                   # not a volume: refused
+                    except (ValueError, TypeError):
+                        pass
                 tgt.get_moles(pick, rng.choice(mol_units))
                 if isinstance(tgt, pp.Plate):
                     tgt.get_moles(pick)
